@@ -93,7 +93,7 @@ Proof.
   - unfold range_answer. destruct (slice_size r (st_size st)) as [[a b]|].
     + destruct ir; try discriminate.
       * destruct (negb (str_eqb t (st_etag st))); discriminate.
-      * destruct (t <? st_lastmod st); discriminate.
+      * destruct (negb (t =? st_lastmod st)); discriminate.
     + destruct retry; discriminate.
   - unfold range_answer. discriminate.
 Qed.
@@ -149,12 +149,12 @@ Proof.
 Qed.
 
 Theorem if_range_time_mismatch_full retry rng st t :
-  t < st_lastmod st -> range_answer retry (Some rng) (IRTime t) st <> Full 200 ->
+  t <> st_lastmod st -> range_answer retry (Some rng) (IRTime t) st <> Full 200 ->
   exists sz, range_answer retry (Some rng) (IRTime t) st = Refuse416 sz.
 Proof.
-  intros Hlt. unfold range_answer.
+  intros Hne. unfold range_answer.
   destruct (slice_size rng (st_size st)) as [[a b]|].
-  - destruct (t <? st_lastmod st) eqn:E; [congruence|lia].
+  - destruct (t =? st_lastmod st) eqn:E; cbn [negb]; [apply Z.eqb_eq in E; contradiction|congruence].
   - destruct retry; [congruence|eauto].
 Qed.
 
